@@ -365,7 +365,7 @@ pub fn run(check: &mut Check) {
         }
         // write side: files produced by the current tree at this page size conform to the pinned layout
         let cfg = Cfg { pagesize: g.pagesize, num_pages: 32, ..Cfg::default() };
-        let or = Oracles { fileck: true, strict_layout: true, dump_after: true, rets: true, ..Oracles::NONE };
+        let or = Oracles { fileck: true, strict_layout: true, dump_after: true, rets: true, dbcheck: true, ..Oracles::NONE };
         let mut hs = crate::optx::histories(g.pagesize, tier, false);
         if g.pagesize <= 5000 {
             // a free list that moves across the capacity of one page (overflow pages of the list page)
